@@ -139,10 +139,11 @@ def content_diff(o0, o1):
 
 
 def guess_would_differ(o0):
-    """split_ads_data on fresh row labels: rows after the first pressure maximum become desorption"""
+    """the all-adsorption marks are not what a fresh branch guess yields <=> the pressure maximum is not the last point
+    (only used to CLASSIFY an observed change of marks, never to predict one)"""
     ps = [c[o0['pk']] for c, _ in o0['rows']]
     k = max(range(len(ps)), key=lambda i: (ps[i], -i))
-    return any((i > k) != b for i, (_, b) in enumerate(o0['rows']))
+    return k != len(ps) - 1
 
 
 def dclass(d):
